@@ -332,14 +332,15 @@ pub fn execute(p: &OwnedProg) -> R<Outcome> {
                     };
                     for op in ops {
                         match op {
-                            ItOp::Next | ItOp::Nth(_) | ItOp::Rest => front = true,
+                            ItOp::Next | ItOp::Nth(_) | ItOp::Rest | ItOp::Split { .. } => front = true,
                             _ => back = true,
                         }
                         let item = match op {
                             ItOp::Next => it.next(),
                             ItOp::NextBack => it.next_back(),
                             ItOp::Nth(k) => it.nth((*k % 8) as usize),
-                            ItOp::Rest => {
+                            // (splitting is exercised by the view programs; here it is a plain drain)
+                            ItOp::Rest | ItOp::Split { .. } => {
                                 let mut e = Ok(());
                                 for r in it.by_ref() {
                                     if e.is_ok() {
@@ -483,6 +484,7 @@ use rten_tensor::storage::ViewMutData;
 use std::ops::Range;
 type Halves<'a> = (ViewMutData<'a, u32>, ViewMutData<'a, u32>);
 struct SplitFn<F>(F);
+#[allow(dead_code)]
 trait ViaSafe<'a> {
     fn split(&self, s: ViewMutData<'a, u32>, l: Range<usize>, r: Range<usize>) -> Option<Halves<'a>>;
 }
